@@ -105,6 +105,31 @@ func enclosingRange(in ssa.Instruction) (ssa.Value, bool, bool) {
 	return nil, false, false
 }
 
+// mapPut: in stores a value into a map - a MapUpdate, or a call of a one-line module helper that stores its
+// parameters (func (as accountSet) put(k, v) { as[k] = v }); returns map and value as seen at the site.
+func (c *Ctx) mapPut(in ssa.Instruction) (m, v ssa.Value, ok bool) {
+	if mu, isMU := in.(*ssa.MapUpdate); isMU {
+		return mu.Map, mu.Value, true
+	}
+	call, isCall := in.(*ssa.Call)
+	if !isCall {
+		return nil, nil, false
+	}
+	g := core.StaticCallee(call)
+	if g == nil || len(g.Blocks) != 1 || !c.P.InModule(g) {
+		return nil, nil, false
+	}
+	for _, gin := range g.Blocks[0].Instrs {
+		if mu, isMU := gin.(*ssa.MapUpdate); isMU {
+			mi, vi := paramIndex(g, core.Strip(mu.Map)), paramIndex(g, core.Strip(mu.Value))
+			if mi >= 0 && vi >= 0 && mi < len(call.Call.Args) && vi < len(call.Call.Args) {
+				return call.Call.Args[mi], call.Call.Args[vi], true
+			}
+		}
+	}
+	return nil, nil, false
+}
+
 // C10: state, transaction and receipt roots commit to exactly what was executed.
 func C10(c *Ctx) {
 	r := c.R
@@ -123,11 +148,11 @@ func C10(c *Ctx) {
 		}
 		var regs []reg
 		for _, in := range sites(ga, func(in ssa.Instruction) bool {
-			mu, ok := in.(*ssa.MapUpdate)
-			return ok && core.Mentions(mu.Map, fieldNamed("accounts"))
+			m, _, ok := c.mapPut(in)
+			return ok && core.Mentions(m, fieldNamed("accounts"))
 		}) {
-			mu := in.(*ssa.MapUpdate)
-			obj := core.Strip(mu.Value)
+			_, muValue, _ := c.mapPut(in)
+			obj := core.Strip(muValue)
 			set := map[string]bool{}
 			for _, b := range ga.Blocks {
 				for _, x := range b.Instrs {
@@ -176,8 +201,8 @@ func C10(c *Ctx) {
 		if len(regs) == 1 {
 			// one registration fed by loader helpers (loadAccountFromCache / loadAccountFromStorage): the loaders are the
 			// load paths, each must initialise the same fields of the account it receives
-			mu := regs[0].in.(*ssa.MapUpdate)
-			obj := core.Strip(mu.Value)
+			_, muValue, _ := c.mapPut(regs[0].in)
+			obj := core.Strip(muValue)
 			var loaders []reg
 			for _, call := range core.Calls(ga) {
 				g := core.StaticCallee(call)
@@ -744,7 +769,7 @@ func (c *Ctx) commitKeyDiscipline(rule string) {
 				"a batch "+o.Name()+" in SimpleLedger.Commit uses a key that is not built by composeStateKey / compositeKey: the entry the ledger reads (address-prefixed) is not the entry written, so the database no longer holds what the state root commits to (visible after a reopen or cache eviction)")
 		}
 	}
-	r.Floor(rule, "batch writes in Commit", n, 6)
+	r.Floor(rule, "batch writes in Commit", n, 3)
 	ops := batchOps(commit)
 	for _, kind := range []string{"account", "code", "state"} {
 		okp, okd := len(ops[kind]["Put"]) > 0, len(ops[kind]["Delete"]) > 0
